@@ -236,6 +236,15 @@ def execute_compound(W, op):
             guard.arm(None)
 
 
+def bundle_expect(world, op):
+    """outcome of `bundle.is_scalar = v` / `bundle.is_array = v` (no structural effect: not a model op): refused
+    (RuntimeError) exactly for a multi-item bundle asked to be scalar"""
+    b = world.get(op["kind"], op["x"])
+    n = len(b._pins if op["kind"] == "port" else b._wires)
+    scalar = op["v"] if op["attr"] == "is_scalar" else (not op["v"])
+    return "runtime" if (n > 1 and scalar is True) else "ok"
+
+
 def _posval(op):
     """the position argument of the call; op["badpos"]: an invalid (non-integer) one"""
     bad = op.get("badpos")
@@ -427,6 +436,8 @@ def execute(world, op, rng=None, tok=None):
                     inst.reference = None
             else:
                 inst.reference = g("definition", op["d"])
+        elif t == "bundleFlag":
+            setattr(g(op["kind"], op["x"]), op["attr"], op["v"])
         elif t == "setTop" and op.get("badtype"):
             g("netlist", op["n"]).top_instance = {"str": "top", "int": 0, "tuple": (), "float": 1.0}[op["badtype"]]
         elif t == "setTop":
